@@ -7,26 +7,58 @@ PROP = dict(
             dict(name="lend-witness", go_test="TestC08Witness", runner="C08"),
             # scripted witness of the known finding C08-F2 (hand-over deletes a live lend record)
             dict(name="lend-handover-witness", go_test="TestC08Handover", runner="C08"),
+            # scripted witnesses of the known finding C08-F3 (the generation-2 close books / forwards more than the auction
+            # recovered: accrued interest; e-mode penalty) and of C10-F7 seen from the lend books (a close that can never succeed)
+            dict(name="lend-close-witness", go_test="TestC08Close", runner="C08"),
         ],
         rule="case = one history of 20-50 messages (lend / deposit / withdraw / close-lend / borrow / borrow-alternate / deposit-borrow / draw / "
-             "repay / close-borrow / calculate-interest-and-rewards, and hand-overs of positions to the liquidation auction through "
-             "liquidationsV2 MsgLiquidateInternalKeeper, half of them after a crash of the collateral price) by 3 users over 2 pools x 3 assets with 12 same-pool and 5 cross-pool pairs "
+             "repay / close-borrow / repay-withdraw / fund-module-accounts / fund-reserve-accounts / calculate-interest-and-rewards, esm kill-switch toggles (about 1 message in 6 runs under an active switch), "
+             "a pool-depreciation proposal in the second half of some histories, hand-overs of positions to the liquidation auction through "
+             "liquidationsV2 MsgLiquidateInternalKeeper, two thirds of them after a crash of the collateral price, and market bids (auctionsV2 MsgPlaceMarketBid by a bidder outside the projection: "
+             "closing, exact, partial, one coin, dust-leaving; half of them after the real auctionsV2 BeginBlocker) on the generation-2 auctions of the handed-over positions, the closing bid "
+             "running liquidationsV2 MsgCloseDutchAuctionForBorrow on the real lend keeper) by 3 users over 2 pools x 3 assets with 12 same-pool and 5 cross-pool pairs "
              "(one e-mode pair, one isolated asset, stable borrows), oracle moves and time gaps of 0 s .. 4 years between messages; amounts "
              "boundary-directed (available +-1, LTV threshold +-1/+2, pool balance +-1, interest / reserve-share truncations +-1, exact close-out), "
-             "one borrow in ten names a lend position of another asset of the pool (C08-F1); plus the scripted witnesses of C08-F1 and C08-F2; "
+             "one borrow in ten names a lend position of another asset of the pool (C08-F1); plus the scripted witnesses of C08-F1, C08-F2, C08-F3 / C10-F7 and C08-F4; "
              "after EVERY message the full projection (pool-asset stats, every lend / borrow record, balances, cToken supplies, counters) is diffed "
              "against the model and the extracted predicates holds_C08_lend / holds_C08_borrow / holds_C08_avail / mismatched_lend (all positions) and, for a successful "
              "borrow / draw / withdraw / close-lend, holds_C08_ltv / holds_C08_ltv_new / holds_C08_pool / holds_C08_pledged judge the implementation's state; "
+             "for a successful close holds_C08_target (the auction's target debt is the hand-over's formula), 'the position is gone' and the close rule holds_C08_close (the pools' "
+             "holdings of the asset out grow by the returning principal plus the growth of TotalInterestAccumulated; a failure counts as known only inside kf_C08_3), for a successful "
+             "repay-withdraw holds_C08_pledged on the state after its CloseBorrow half (computed from the OBSERVED pre-state); "
              "a books failure is suppressed only after a successful message of class kf_C08_2 in the same history; "
-             "non-trivial = at least one borrow succeeded (or a position was handed over) in the history; distinct by digest of the message sequence",
+             "non-trivial = at least one borrow succeeded (or a position was handed over / closed) in the history; distinct by digest of the message sequence",
         modelled=["interest arithmetic (CalculateLendReward / CalculateBorrowInterest / APR, C18's subject) enters as ENV values measured on a throw-away "
                   "cache context at the block time of the message (arbitrary in the theorems); what IterateLends/IterateBorrow DO with them is modelled",
                   "the liquidation hand-over (liquidationsV2 LiquidateIndividualBorrow -> UpdateLockedBorrows) is modelled as coded in its effect on the lend "
                   "books; its DECISION (ratio above the liquidation threshold, C09's subject) and the interest of IterateBorrowForLiq are ENV values the harness "
                   "measures with the keeper's own functions; CreateLockedVault / AuctionActivator write liquidation / auction state only (not projected)",
-                  "not modelled, never issued by the generator: FundModAcc, FundReserveAcc (RemoveFaultyAuctions), RepayWithdraw, DeletePoolAndTransferInterest, "
-                  "what happens to a handed-over position afterwards (auction close MsgCloseDutchAuctionForBorrow, CreteNewBorrow), the first-generation "
-                  "liquidation, ESM kill switch, pool depreciation",
+                  "the life of a handed-over position: market bids on its generation-2 auction that do not close it (no effect on the lend state) and the closing bid "
+                  "(auctionsV2 PlaceDutchAuctionBid -> liquidationsV2 MsgCloseDutchAuctionForBorrow, modelled as coded: target debt to the asset-out pool, penalty - recomputed, e-mode "
+                  "penalty for an e-mode pair - and reserve share of the interest to the reserve, cToken mint + TotalInterestAccumulated for the rest of the interest, bridged coins back to "
+                  "the lend position's pool (GetLend without found check: finding C10-F7), deletion of the borrow record, tracker, published id and user-mapping id). Auction internals are "
+                  "ENV values measured on the real run: accepted / rejected / closing (a failing bid is attributed to the close iff a dry run shows the bid counter advanced, the last step "
+                  "before the close), the locked vault's TargetDebt (checked against the model's target_of), the owner and the unsold collateral returned to the owner; the debt coins "
+                  "arrive in the pool from the auction module account, whose own ledger (bidders, app reserve top-up) is C10's subject",
+                  "MsgRepayWithdraw (CloseBorrow then WithdrawAsset of the position's collateral in the lend position's denom), MsgFundModuleAccounts (FundModAcc: transfer before the "
+                  "checks, cToken mint, no stats) and MsgFundReserveAccounts (FundReserveAcc) are modelled as coded; FundModBal / FundReserveBal records are not projected; "
+                  "RemoveFaultyAuctions (inside FundReserveAcc) walks the generation-1 lend auctions of app 3, of which none can exist here (not modelled)",
+                  "a closed position is never returned to the lend books on this tree: the generation-2 close deletes the borrow record and nothing re-opens it; lend CreteNewBorrow is "
+                  "called only by the generation-1 x/liquidation UnLiquidateLockedBorrows (reached through x/auction MsgPlaceDutchLendBid)",
+                  "the generation-1 hand-over message x/liquidation MsgLiquidateBorrow (still routed; the fixture gives the lend app generation-1 auction parameters) is modelled in its effect on "
+                  "the lend books as coded (flag + interest, deduction from the borrow's collateral / the lend record's AmountIn / TotalLend capped by the collateral, cToken burn of the uncapped "
+                  "deduction, coins to the generation-1 auction module account and penalty to the reserve, NO change of the totals borrowed: finding C08-F4); its result class, the interest "
+                  "added and the three sell-off amounts are ENV values measured on a dry run of the message itself; issued in one history out of eight, in its second half, after a fall of the "
+                  "collateral price to just below the position's liquidation threshold; the book predicates count as known-class failures (kf_C08_4) for the rest of such a history",
+                  "not modelled, never issued by the generator: the life of a generation-1 auction (x/auction lend auctions and bids, x/liquidation UnLiquidateLockedBorrows with its "
+                  "re-listing, lend CreteNewBorrow = the return of an unsold position, RemoveFaultyAuctions' loop body): a position flagged by generation 1 stays flagged in the histories; "
+                  "DeletePoolAndTransferInterest (block hook at heights divisible by 14400, deletes pool records: "
+                  "pools are constant configuration in the model; the harness skips those heights), limit bids / the automatic fill (C11)",
+                  "the ESM kill switch of an app (esm MsgKillSwitch by an admin or - refused - by somebody else, for the lend app, another app, a missing app) and the depreciation of "
+                  "a pool (lend HandlePoolDepreciateProposal, run all-or-nothing like a passed governance proposal) are state in the model; every handler's early return on them "
+                  "(LendAsset, DepositAsset, WithdrawAsset, CloseLend, BorrowAsset, DepositBorrowAsset, DrawAsset, RepayAsset, CloseBorrow, BorrowAlternate, MsgCalculateBorrowInterest, "
+                  "MsgCalculateLendRewards, liquidationsV2 LiquidateIndividualBorrow) is modelled at its place in the handler, so that a dropped or misplaced check shows as a "
+                  "result-class or projection mismatch",
                   "reserve buy-back / AllReserveStats / FundModBal records are not projected",
                   "sort.Search (binary) modelled as first index with ids[i] >= id; equal on ascending lists, and the id lists are proved ascending (= filter of 1..n)",
                   "the pool-holds-the-loan predicate is evaluated on the message's pre-state for Draw and for a Borrow that opens a position; for DepositDraw "
@@ -39,21 +71,31 @@ PROP = dict(
     )
 
 MANIFEST = dict(
-    level_text="PARTIAL (known finding C08-F2). Both book identities (total lent = available + pledged-and-not-auctioned collateral; totals borrowed variable/stable = principal of open "
+    level_text="PARTIAL (known findings C08-F2, C08-F3, C08-F4). Both book identities (total lent = available + pledged-and-not-auctioned collateral; totals borrowed variable/stable = principal of open "
                "non-liquidated borrows; published id lists = exactly the positions of the pool-asset) proved as an inductive invariant of all eleven lend "
-               "messages (same-pool and cross-pool) and of the hand-over of a position to a liquidation auction, and lifted to every finite history with arbitrary "
-               "oracle prices and arbitrary interest / reward / liquidation-decision inputs OUTSIDE known-finding class kf_C08_2; inside it (the hand-over deletes a "
+               "messages (same-pool and cross-pool), of MsgRepayWithdraw / MsgFundModuleAccounts / MsgFundReserveAccounts, of the hand-over of a position to a liquidation auction and of the "
+               "bids on and the close of its generation-2 auction (for every target debt / owner / returned collateral the auction may supply), and lifted to every finite history with arbitrary "
+               "oracle prices and arbitrary interest / reward / liquidation-decision inputs OUTSIDE the known-finding classes kf_C08_2 and kf_C08_4 (the generation-1 hand-over message "
+               "x/liquidation MsgLiquidateBorrow, still routed, flags a position and leaves its principal in the totals borrowed: refuted with a witness replayed on the real keepers, "
+               "total borrowed 900 000 with the only position under liquidation); inside kf_C08_2 (the hand-over deletes a "
                "lend record that still has available-to-borrow or other open positions) the identity of total lent is proved refuted with a witness replayed on "
                "the real keepers (2 000 313 940 published vs 2 000 000 000 held by positions); AvailableToBorrow >= 0 in every reachable state; "
+               "the close of a handed-over position: the position is gone from records / published ids / user mapping, nothing returns to the lend position, exact flows of the asset out "
+               "through the pools (c08_close_flow), and the close rule 'the pools receive the returning principal plus what the close adds to TotalInterestAccumulated' proved outside "
+               "known-finding class kf_C08_3 and refuted inside it with two witnesses replayed on the real keepers (accrued interest is booked and its reserve share forwarded although the "
+               "target debt carries none: pool 999 999 848 vs total lent 1 000 000 000 with nothing lent out, the lender's CloseLend refused; e-mode penalty 8 % forwarded where 5 % was "
+               "collected: pool 30 000 short); a cross-pool position whose lend record the hand-over deleted can never be closed (c08_close_stuck, finding C10-F7); "
+               "with the ESM kill switch on no lend message, RepayWithdraw or hand-over changes the state, a depreciated pool takes no new funds or debt (c08_kill_switch_freezes, c08_depreciated_pool_closed); "
                "loan-to-value decision rule of Borrow / Draw / BorrowAlternate with the explicit one-ulp Quo slack (and the bridged-coin bound for new "
-               "cross-pool positions), pool-holds-the-loan and pledged-collateral safety of Withdraw / CloseLend proved per message from any invariant "
+               "cross-pool positions), pool-holds-the-loan and pledged-collateral safety of Withdraw / CloseLend / RepayWithdraw proved per message from any invariant "
                "state, hence after every history. Finding C08-F1 (BorrowAsset accepted a lend position of another asset than the pair's asset in and priced "
                "the pledged cTokens with it: loan worth 100% of the collateral at Ltv 0.5) was reproduced on the real keepers and is repaired by "
                "fixes/C08-F1; the model follows the repaired code, 'no position hangs on a lend position of another asset' is part of the proved invariant, "
                "the witness stays as a scripted workload. The model is tied to /repo by a differential run through the real lend message server on every check.",
     design_ref="DESIGN.md section 4 C08",
     level_note="Trusted: Coq kernel, extraction (ExtrOcamlBasic), OCaml runner, Go harness. Interest arithmetic is an environment input (C18). "
-               "The liquidation decision is an environment input (C09); auction close / return of a handed-over position and the governance / funding "
-               "messages are not modelled (listed in the evidence). No axioms (Closed under the global context).",
+               "The liquidation decision is an environment input (C09); auction internals (bid acceptance, target debt, returned collateral) are environment inputs (C10); "
+               "the generation-1 liquidation / auction modules and the pool-deletion block hook are not modelled (listed in the evidence). "
+               "No axioms (Closed under the global context).",
     technique="Coq proof (inductive invariants over message histories, decision rules with explicit Dec rounding) + model/implementation correspondence run",
 )
